@@ -222,6 +222,14 @@ def _slice_is(t, lo, hi):
 def binop(op, l, r):
     if op == "-" and l.op == "sub" and r.op == "sub" and l.a[0] is r.a[0] and _slice_is(l.a[1], 1, None) and _slice_is(r.a[1], None, -1):
         return call(ext("np.diff"), (l.a[0],))  # x[1:] - x[:-1] is np.diff(x) (along the first axis; the only axis of a 1-d x)
+    if op == "*":
+        # a[:, np.newaxis] * b[np.newaxis, :] is np.outer(a, b)  (ravel() of a 1-d operand is the operand)
+        ca, cb = _column_of(l), _row_of(r)
+        if ca is None or cb is None:
+            ca, cb = _column_of(r), _row_of(l)
+        if ca is not None and cb is not None:
+            strip_ = lambda z: z.a[1][0] if z.op == "call" and callee_name(z.a[0]) in ("np.ravel", "np.flatten") and len(z.a[1]) == 1 else z
+            return call(ext("np.outer"), (strip_(ca), strip_(cb)))
     if op == "*" and _boolean_valued(l) and _boolean_valued(r):
         op = "&"  # the product of two Boolean arrays is their conjunction
     if op == "+" and (_is_str(l) or _is_str(r)):
